@@ -12,6 +12,7 @@ import (
 	"os"
 	"sort"
 	"strings"
+	"time"
 
 	"github.com/irai/packet"
 	dhcp "github.com/irai/packet/handlers/dhcp4_spoofer"
@@ -113,6 +114,7 @@ type serverT struct {
 	c     cfgT
 	fname string
 	xid   uint32
+	pre   func()
 }
 
 func (sv *serverT) exchange(srcMAC net.HardwareAddr, srcIP, dstIP netip.Addr, dstMAC net.HardwareAddr, msg []byte, xid uint32) (rp replyT, ok bool) {
@@ -121,6 +123,9 @@ func (sv *serverT) exchange(srcMAC net.HardwareAddr, srcIP, dstIP netip.Addr, ds
 	frame, err := sv.s.Parse(f)
 	if err != nil {
 		return
+	}
+	if sv.pre != nil {
+		sv.pre() // the state the handler is about to see (Parse may just have created the sender's host)
 	}
 	sv.h.ProcessPacket(frame)
 	for _, x := range decodeReplies(sv.conn.Take()) {
@@ -412,23 +417,26 @@ func histories(r *lib.Run, rng *lib.Rand) (files []savedFile) {
 		if !sameBindings(ackedTable, ackedSeen) {
 			r.Viol("hist-acked-vs-table", "ACK frames seen "+showBindings(ackedSeen)+" but allocated leases are "+showBindings(ackedTable), "")
 		}
-		// restart: same session, or the capture state changed in between
+		// restart: a NEW session (empty host table, as after a process restart); the capture state may have changed
 		text, _ := os.ReadFile(fname)
-		capTok2, s2 := capTok, sv.s
+		capTok2, cap2 := capTok, captured
+		sameCapture := true
 		if rng.Chance(25) {
-			var cap2 []net.HardwareAddr
+			cap2 = nil
 			for _, m := range macUniv {
 				if rng.Chance(50) {
 					cap2 = append(cap2, m)
 				}
 			}
 			capTok2 = macsTok(cap2)
-			s2 = sessionFor(c.nic, capTok2)
+			sameCapture = capTok2 == capTok
 		}
 		toks := docTokens(text)
 		f2 := tmpName()
 		os.WriteFile(f2, text, 0644)
-		b1 := construct(s2, c, f2)
+		sv2 := newServer(c, cap2, f2)
+		sv2.xid = 0x8000
+		b1 := construct(sv2.s, c, f2)
 		r.Case("newt", append([]string{c.tok(), capTok2, lib.Hex(text)}, toks...), b1.obs)
 		r.Stat("hist.histories", 1)
 		r.Stat("hist.designated."+special, 1)
@@ -456,45 +464,114 @@ func histories(r *lib.Run, rng *lib.Rand) (files []savedFile) {
 				}
 			}
 			r.Viol(key, "acknowledged "+showBindings(ackedSeen)+" restored "+showBindings(b1.bindings), "newt "+c.tok()+" "+capTok2+" "+lib.Hex(text)+" "+strings.Join(toks, " "))
-		} else if b1.h != nil {
+		}
+		if b1.h != nil {
 			// keeps serving: every restored binding is renewed with an ACK for the same address, and a new
-			// client is not offered a restored address
-			sv2 := &serverT{s: s2, conn: nil, h: b1.h, c: c, fname: f2, xid: 0x8000}
-			if s2 == sv.s {
-				sv2.conn = sv.conn
-				for _, cl := range clients {
-					b, ok := acked[lib.Hex(cl.key())]
-					if !ok {
-						continue
+			// client is not offered a restored address.  Each exchange is also a model case (renew / offer):
+			// the arguments are the state the handler sees between Parse and ProcessPacket.
+			sv2.h = b1.h
+			var nets []string // the validated subnets the handler carries, as it re-saved them
+			if rt, _ := os.ReadFile(f2); true {
+				if dt := docTokens(rt); dt[0] == "doc" {
+					nets = dt[1:3]
+				}
+			}
+			var pending []string
+			sv2.pre = func() {
+				var hosts []string
+				for a, h := range sv2.s.HostTable.Table {
+					hosts = append(hosts, addrTok(a)+"="+lib.Hex(h.MACEntry.MAC))
+				}
+				sort.Strings(hosts)
+				ht := "-"
+				if len(hosts) > 0 {
+					ht = strings.Join(hosts, "+")
+				}
+				ls := sv2.h.VerifLeases()
+				sort.Slice(ls, func(i, j int) bool { return bytes.Compare(ls[i].ClientID, ls[j].ClientID) < 0 })
+				var lt []string
+				dupIP := map[string]bool{}
+				for i := range ls {
+					sub := "0"
+					switch ls[i].SubnetID {
+					case "net1":
+						sub = "1"
+					case "net2":
+						sub = "2"
 					}
-					mt, y := sv2.renew(cl, tokAddr(b.ip))
-					r.Stat(fmt.Sprintf("hist.renew-after-restart.reply%d", mt), 1)
-					if mt != 5 || addrTok(y) != b.ip {
-						key := "restart-renew-not-acked"
-						if isCaptured[b.mac] && !c.netfilter.Masked().Contains(tokAddr(b.ip)) {
-							key = "restart-renew-nak-captured-outside-net2"
-						}
-						r.Viol(key, fmt.Sprintf("renewal of restored binding %v answered type=%d yiaddr=%v; captured=%s restored=%s", b, mt, y, capTok2, b1.obs), "")
+					lt = append(lt, recTok(&ls[i].Lease)+","+sub)
+					if a := addrTok(ls[i].Addr.IP); a != "x" && dupIP[a] {
+						nets = nil // two leases with one address: findByIP depends on the map order; no model case
+					} else {
+						dupIP[a] = true
 					}
 				}
-				fresh := clientT{mac: net.HardwareAddr{0x02, 0, 0, 0, 0, 0x77}, name: "new"}
-				for try := 0; try < 3; try++ {
-					want := netip.Addr{}
-					if try > 0 && len(ackedSeen) > 0 {
-						want = tokAddr(ackedSeen[rng.Intn(len(ackedSeen))].ip) // ask for somebody else's address
-					}
-					if off, ok := sv2.discoverOnly(fresh, want); ok {
-						r.Stat("hist.offer-after-restart", 1)
-						for _, b := range ackedSeen {
-							if addrTok(off) == b.ip {
-								r.Viol("restart-offers-bound-address", fmt.Sprintf("restored binding %v but %v offered to another client", b, off), "")
-							}
+				pending = append([]string{ht, timeZ(time.Now())}, lt...)
+			}
+			emit := func(kind string, cl clientT, a netip.Addr, obs string) {
+				if nets == nil || pending == nil {
+					r.Stat("hist."+kind+".no-model-case", 1)
+					return
+				}
+				args := append([]string{capTok2, nets[0], nets[1], pending[0], pending[1], lib.Hex(cl.key()), lib.Hex(cl.mac), addrTok(a)}, pending[2:]...)
+				r.Case(kind, args, obs)
+				pending = nil
+			}
+			fresh := clientT{mac: net.HardwareAddr{0x02, 0, 0, 0, 0, 0x77}, name: "new"}
+			for try := 0; try < 3; try++ {
+				want := netip.Addr{}
+				if try > 0 && len(b1.bindings) > 0 {
+					want = tokAddr(b1.bindings[rng.Intn(len(b1.bindings))].ip) // ask for somebody else's address
+				}
+				// a handler just constructed (nextIP zero) for every model case; the session has not yet seen the
+				// restored clients, so only the lease table keeps their addresses from being offered
+				sv2.h = construct(sv2.s, c, f2).h
+				if sv2.h == nil {
+					break
+				}
+				off, ok := sv2.discoverOnly(fresh, want)
+				obs := "none"
+				if ok {
+					obs = "offer " + addrTok(off)
+				}
+				emit("offer", fresh, want, obs)
+				if ok {
+					r.Stat("hist.offer-after-restart", 1)
+					for _, b := range b1.bindings {
+						if addrTok(off) == b.ip {
+							r.Viol("restart-offers-bound-address", fmt.Sprintf("restored binding %v but %v offered to another client", b, off), "")
 						}
 					}
 				}
 			}
+			sv2.h = b1.h
+			for _, cl := range clients {
+				b, ok := acked[lib.Hex(cl.key())]
+				if !ok {
+					continue
+				}
+				restoredHere := false
+				for _, x := range b1.bindings {
+					if x == b {
+						restoredHere = true
+					}
+				}
+				mt, y := sv2.renew(cl, tokAddr(b.ip))
+				obs := map[byte]string{0: "none", 5: "ack " + addrTok(y), 6: "nak"}[mt]
+				emit("renew", cl, tokAddr(b.ip), obs)
+				r.Stat(fmt.Sprintf("hist.renew-after-restart.reply%d", mt), 1)
+				// the oracle: a restored binding whose client is still on the subnet it was on is renewed
+				if restoredHere && sameCapture && (mt != 5 || addrTok(y) != b.ip) {
+					key := "restart-renew-not-acked"
+					if isCaptured[b.mac] && !c.netfilter.Masked().Contains(tokAddr(b.ip)) {
+						key = "restart-renew-nak-captured-outside-net2"
+					}
+					r.Viol(key, fmt.Sprintf("renewal of restored binding %v answered type=%d yiaddr=%v; captured=%s restored=%s", b, mt, y, capTok2, b1.obs), "")
+				}
+			}
 		}
-		if len(ackedSeen) >= 2 && len(files) < 12 && sameBindings(b1.bindings, ackedSeen) && s2 == sv.s {
+		sv2.close()
+		if len(ackedSeen) >= 2 && len(files) < 12 && sameBindings(b1.bindings, ackedSeen) && sameCapture {
 			files = append(files, savedFile{text: text, c: c, capTok: capTok, bindings: b1.bindings})
 		}
 		os.Remove(fname)
